@@ -86,6 +86,9 @@ def gen(rng, tier):
             yield c
             if rng.chance(0.15 if not full else 0.5):
                 yield dict(c, via="ref", _tag="conv-ref/" + t)
+                if rng.chance(0.5):
+                    # the referenced setting held another value before and was read through the reference once
+                    yield dict(c, via="ref", before=rng.pick([U(5), I(-1), S("7"), U(300), S("x")]), _tag="conv-ref-after-change/" + t)
             # integers that arrive as text assembled by variable expansion (two spliced halves, a resolver's answer) and
             # are parsed again
             if ("i" in v or "u" in v) and len(v.get("i", v.get("u"))) >= 2 and rng.chance(0.2 if not full else 0.6):
